@@ -92,6 +92,46 @@ fn law(name: &'static str, describe: String, lhs: impl Fn() -> Cmd + Sync + Send
     Law { name, lhs: Box::new(lhs), rhs: Box::new(rhs), describe }
 }
 
+const SHAPES: usize = 6;
+const ALL_SHAPED: [&str; SHAPES] = [
+    "all(v.filter(true)) = all(v)",
+    "all(from_fn(next of v)) = all(v)",
+    "all(v.flat_map(once)) = all(v)",
+    "all(v.take_while(true)) = all(v)",
+    "all(once(first).chain(rest.filter(true))) = all(v)",
+    "all(v.map(Some).flatten()) = all(v)",
+];
+const COLLECT_SHAPED: [&str; SHAPES] = [
+    "v.filter(true).collect() = all(v)",
+    "from_fn(next of v).collect() = all(v)",
+    "v.flat_map(once).collect() = all(v)",
+    "v.take_while(true).collect() = all(v)",
+    "once(first).chain(rest.filter(true)).collect() = all(v)",
+    "v.map(Some).flatten().collect() = all(v)",
+];
+
+/// The commands of `v`, in order, behind an iterator whose `size_hint` is not exact: lower bounds of
+/// 0, unknown upper bounds, adapters that know one element but not the rest.
+fn shaped(v: Vec<Cmd>, shape: usize) -> Box<dyn Iterator<Item = Cmd>> {
+    match shape {
+        0 => Box::new(v.into_iter().filter(|_| true)),
+        1 => {
+            let mut it = v.into_iter();
+            Box::new(std::iter::from_fn(move || it.next()))
+        }
+        2 => Box::new(v.into_iter().flat_map(std::iter::once)),
+        3 => Box::new(v.into_iter().take_while(|_| true)),
+        4 => {
+            let mut it = v.into_iter();
+            match it.next() {
+                Some(first) => Box::new(std::iter::once(first).chain(it.filter(|_| true))),
+                None => Box::new(std::iter::empty()),
+            }
+        }
+        _ => Box::new(v.into_iter().map(Some).flatten()),
+    }
+}
+
 pub fn laws(thorough: bool) -> Vec<Law> {
     let mut out = vec![];
     let unary_base = dsl::terms_up_to(2, &dsl::all_atoms(), Grammar::plain());
@@ -143,7 +183,47 @@ pub fn laws(thorough: bool) -> Vec<Law> {
             out.push(law("p.and(q) = all([p,q])", d.clone(), move || build(&x1).and(build(&y1)), move || Command::all([build(&x2), build(&y2)])));
         }
     }
+    // `all` / `collect` over iterators of every shape: what the iterator says about its own length
+    // (`size_hint`) must not matter - the same commands in the same order give the same command
     let basic = dsl::basic_atoms();
+    for p in &unary_base {
+        let d = format!("{p:?}");
+        for shape in [1usize, 3] {
+            let (p1, p2) = (p.clone(), p.clone());
+            out.push(law(ALL_SHAPED[shape], d.clone(), move || Command::all(shaped(vec![build(&p1)], shape)), move || build(&p2)));
+            let (p1, p2) = (p.clone(), p.clone());
+            out.push(law(COLLECT_SHAPED[shape], d.clone(), move || shaped(vec![build(&p1)], shape).collect(), move || build(&p2)));
+        }
+    }
+    for shape in 0..SHAPES {
+        out.push(law(ALL_SHAPED[shape], "no commands".into(), move || Command::all(shaped(vec![], shape)), Command::done));
+        out.push(law(COLLECT_SHAPED[shape], "no commands".into(), move || shaped(vec![], shape).collect(), Command::done));
+    }
+    let shape_atoms: Vec<P> = if thorough { atoms.clone() } else { basic.clone() };
+    for a in &shape_atoms {
+        for b in &shape_atoms {
+            let d = format!("{a:?} , {b:?}");
+            for shape in 0..SHAPES {
+                let (a1, b1, a2, b2) = (a.clone(), b.clone(), a.clone(), b.clone());
+                out.push(law(ALL_SHAPED[shape], d.clone(), move || Command::all(shaped(vec![build(&a1), build(&b1)], shape)), move || Command::all(vec![build(&a2), build(&b2)])));
+                let (a1, b1, a2, b2) = (a.clone(), b.clone(), a.clone(), b.clone());
+                out.push(law(COLLECT_SHAPED[shape], d.clone(), move || shaped(vec![build(&a1), build(&b1)], shape).collect(), move || Command::all(vec![build(&a2), build(&b2)])));
+            }
+        }
+    }
+    for a in &basic {
+        for b in &basic {
+            for c in &basic {
+                let d = format!("{a:?} , {b:?} , {c:?}");
+                let v = vec![a.clone(), b.clone(), c.clone()];
+                let shape = (out.len() / 2) % SHAPES;
+                let (v1, v2) = (v.clone(), v.clone());
+                out.push(law(ALL_SHAPED[shape], d.clone(), move || Command::all(shaped(v1.iter().map(build).collect(), shape)), move || Command::all(v2.iter().map(build).collect::<Vec<_>>())));
+                let (v1, v2) = (v.clone(), v.clone());
+                out.push(law(COLLECT_SHAPED[shape], d, move || shaped(v1.iter().map(build).collect(), shape).collect(), move || Command::all(v2.iter().map(build).collect::<Vec<_>>())));
+            }
+        }
+    }
     for a in &basic {
         for b in &basic {
             for c in &basic {
